@@ -286,7 +286,11 @@ struct Finding {
 }
 
 struct World {
-    handler: KittyImageHandler,
+    /// the handler, held the way `UnixTerminal` holds it
+    handler: Box<dyn ImageHandler>,
+    /// calls go through `<Box<dyn ImageHandler> as ImageHandler>` (the library's forwarding implementation)
+    /// instead of straight to the handler
+    boxed: bool,
     quiet: bool,
     term: KittyTerm,
     /// contents transmitted and not evicted by an error response since
@@ -307,9 +311,14 @@ fn fmt_chunks(ch: &[Chunk]) -> String {
 
 impl World {
     fn new(quiet: bool) -> Self {
-        let handler = if quiet { KittyImageHandler::new().quiet() } else { KittyImageHandler::new() };
+        Self::new_with(quiet, false)
+    }
+
+    fn new_with(quiet: bool, boxed: bool) -> Self {
+        let handler: Box<dyn ImageHandler> = Box::new(if quiet { KittyImageHandler::new().quiet() } else { KittyImageHandler::new() });
         World {
             handler,
+            boxed,
             quiet,
             term: KittyTerm::new(),
             cached: BTreeSet::new(),
@@ -330,7 +339,7 @@ impl World {
             .collect();
         pl.sort();
         let imgs: Vec<u32> = self.term.images.keys().copied().collect();
-        hash128(&(self.quiet, &self.cached, imgs, pl))
+        hash128(&(self.quiet, self.boxed, &self.cached, imgs, pl))
     }
 
     /// Execute one operation on the real handler, feed its output to the reference terminal
@@ -374,7 +383,12 @@ impl World {
             Op::Other => Some(TerminalEvent::KeyboardLevel(1)),
             _ => None,
         };
-        let handler = &mut self.handler;
+        // as a trait object, `Box<dyn ImageHandler>` is the Box's own implementation (which forwards), `*Box` is the
+        // handler itself
+        fn forwarding<T: ImageHandler>(t: &mut T) -> &mut dyn ImageHandler {
+            t
+        }
+        let handler: &mut dyn ImageHandler = if self.boxed { forwarding::<Box<dyn ImageHandler>>(&mut self.handler) } else { &mut *self.handler };
         let res = catch(|| match op {
             Op::Draw(i, _) => handler.draw(&mut out, &env.imgs[*i].image, Position::new(row, col)).map(|_| false),
             Op::EraseAt(i, _) => handler.erase(&mut out, &env.imgs[*i].image, Some(Position::new(row, col))).map(|_| false),
@@ -839,8 +853,8 @@ struct Counters {
     transmissions: AtomicU64,
 }
 
-fn run_history(env: &Env, quiet: bool, hist: &[Op]) -> (World, Vec<Finding>, bool) {
-    let mut w = World::new(quiet);
+fn run_history(env: &Env, quiet: bool, boxed: bool, hist: &[Op]) -> (World, Vec<Finding>, bool) {
+    let mut w = World::new_with(quiet, boxed);
     let mut last = vec![];
     let mut prefix_bad = false;
     for (n, op) in hist.iter().enumerate() {
@@ -854,13 +868,13 @@ fn run_history(env: &Env, quiet: bool, hist: &[Op]) -> (World, Vec<Finding>, boo
     (w, last, prefix_bad)
 }
 
-fn history_witness(env: &Env, quiet: bool, hist: &[Op]) -> Value {
-    json!({"sub": "history", "images": env.set, "quiet": quiet, "ops": hist.iter().map(|o| env.op_json(o)).collect::<Vec<_>>()})
+fn history_witness(env: &Env, quiet: bool, boxed: bool, hist: &[Op]) -> Value {
+    json!({"sub": "history", "images": env.set, "quiet": quiet, "boxed": boxed, "ops": hist.iter().map(|o| env.op_json(o)).collect::<Vec<_>>()})
 }
 
-fn explore(ctx: &Ctx, env: &Env, ops: &[Op], quiet: bool, depth: usize, dedup: bool, viol: &Violations, samples: &Samples, cnt: &Counters) -> bfs::BfsStats {
+fn explore(ctx: &Ctx, env: &Env, ops: &[Op], quiet: bool, boxed: bool, depth: usize, dedup: bool, viol: &Violations, samples: &Samples, cnt: &Counters) -> bfs::BfsStats {
     bfs::bfs(ctx, ops, depth, |hist: &[Op]| {
-        let (w, findings, prefix_bad) = run_history(env, quiet, hist);
+        let (w, findings, prefix_bad) = run_history(env, quiet, boxed, hist);
         cnt.histories.fetch_add(1, Ordering::Relaxed);
         cnt.ops_run.fetch_add(hist.len() as u64, Ordering::Relaxed);
         if w.q_deviation {
@@ -878,7 +892,7 @@ fn explore(ctx: &Ctx, env: &Env, ops: &[Op], quiet: bool, depth: usize, dedup: b
         }
         if !findings.is_empty() {
             for f in &findings {
-                viol.add(f.key.clone(), format!("{} [history of {} op(s), last: {}]", f.what, hist.len(), env.op_json(hist.last().unwrap())), history_witness(env, quiet, hist));
+                viol.add(f.key.clone(), format!("{} [history of {} op(s), last: {}]", f.what, hist.len(), env.op_json(hist.last().unwrap())), history_witness(env, quiet, boxed, hist));
             }
             // The reference terminal gives p=0 a well-defined meaning, so histories through a
             // cell whose placement id is 0 stay explorable; every other finding ends the branch.
@@ -886,7 +900,26 @@ fn explore(ctx: &Ctx, env: &Env, ops: &[Op], quiet: bool, depth: usize, dedup: b
                 return None;
             }
         }
-        Some(if dedup { w.state_key() } else { hash128(&(quiet, hist)) })
+        Some(if dedup {
+            // probe continuation: what the handler itself believes it has transmitted is hidden state; ask it by
+            // drawing every image once more (the world is rebuilt for every history, so this costs nothing) and
+            // make the answer part of the key, so that two histories are merged only if the handler, too, is in
+            // the same state after them
+            let mut w = w;
+            let base = w.state_key();
+            let mut mask = 0u32;
+            for (i, im) in env.imgs.iter().enumerate() {
+                let mut out = vec![];
+                let handler: &mut dyn ImageHandler = &mut *w.handler;
+                let _ = catch(|| handler.draw(&mut out, &im.image, Position::new(7, 7)));
+                if out.windows(3).any(|x| x == b"a=t") {
+                    mask |= 1 << i;
+                }
+            }
+            hash128(&(base, mask))
+        } else {
+            hash128(&(quiet, boxed, hist))
+        })
     })
 }
 
@@ -1181,19 +1214,21 @@ pub fn run(ctx: &Ctx) -> Result<Report, String> {
     let mut transitions = 0u64;
     let mut capped = false;
     let mut parts = vec![];
-    let mut plan: Vec<(bool, usize, bool)> = vec![(false, 3, false), (true, 2, false), (false, 4, true)];
+    // (quiet, depth, de-duplicated, calls through the library's `impl ImageHandler for Box<T>`)
+    let mut plan: Vec<(bool, usize, bool, bool)> = vec![(false, 3, false, false), (true, 2, false, true), (false, 4, true, false), (false, 4, true, true)];
     if ctx.tier == Tier::Thorough {
-        plan.push((true, 3, false));
-        plan.push((false, 6, true));
-        plan.push((true, 5, true));
+        plan.push((true, 3, false, false));
+        plan.push((false, 6, true, false));
+        plan.push((true, 5, true, true));
     }
-    for (quiet, depth, dedup) in plan {
-        let st = explore(ctx, &env, &ops, quiet, depth, dedup, &viol, &samples, &cnt);
+    for (quiet, depth, dedup, boxed) in plan {
+        let st = explore(ctx, &env, &ops, quiet, boxed, depth, dedup, &viol, &samples, &cnt);
         states += st.states;
         transitions += st.transitions;
         capped |= st.capped;
         parts.push(json!({
             "handler": if quiet { "KittyImageHandler::new().quiet()" } else { "KittyImageHandler::new()" },
+            "called_through_box_forwarding_impl": boxed,
             "depth": depth, "deduplicated": dedup, "states": st.states, "transitions": st.transitions,
             "levels": st.levels, "pruned": st.pruned, "depth_completed": st.max_depth, "capped": st.capped,
         }));
@@ -1202,7 +1237,7 @@ pub fn run(ctx: &Ctx) -> Result<Report, String> {
     // ---- memory layouts: every history of two operations (three in the thorough tier) over the layout image set
     {
         let depth = ctx.tier.pick(2, 3);
-        let st = explore(ctx, &layout_env, &layout_ops, false, depth, false, &viol, &samples, &cnt);
+        let st = explore(ctx, &layout_env, &layout_ops, false, false, depth, false, &viol, &samples, &cnt);
         states += st.states;
         transitions += st.transitions;
         capped |= st.capped;
@@ -1341,8 +1376,9 @@ pub fn replay(w: &Value) -> Result<(bool, String), String> {
             let dummy = Violations::new();
             let env = probe(w["images"].as_str().unwrap_or("history"), &dummy);
             let quiet = w["quiet"].as_bool().unwrap_or(false);
+            let boxed = w["boxed"].as_bool().unwrap_or(false);
             let ops: Vec<Op> = w["ops"].as_array().ok_or("ops")?.iter().map(|o| env.op_from_json(o)).collect::<Result<_, _>>()?;
-            let mut world = World::new(quiet);
+            let mut world = World::new_with(quiet, boxed);
             for (n, op) in ops.iter().enumerate() {
                 let f = world.apply(&env, op);
                 bad |= !f.is_empty();
